@@ -30,6 +30,14 @@ func (l *Listener) kid() int { return l.id }
 
 type OpError = net.OpError
 
+// PortMap publishes the TCP ports of namespace To in namespace From, shifted:
+// a process in From that dials port p reaches the listener on p-Shift in To
+// (a container's port mapping).
+type PortMap struct {
+	From, To string
+	Shift    int
+}
+
 func opErr(op, network string, addr net.Addr, err error) error {
 	return &net.OpError{Op: op, Net: network, Addr: addr, Err: err}
 }
@@ -83,22 +91,28 @@ func (w *World) Listen(network, address string) (*Listener, error) {
 		if err != nil || pn < 0 || pn > 65535 {
 			return nil, opErr("listen", network, nil, fmt.Errorf("invalid port %q", port))
 		}
+		// a process in a network namespace of its own has its own ports
+		ns := ""
+		if cur != nil && cur.NetNS != "" {
+			ns = "@" + cur.NetNS + "/"
+		}
 		w.mu.Lock()
 		if pn == 0 {
 			for {
 				w.nextPort++
-				if w.listeners["tcp:"+host+":"+strconv.Itoa(w.nextPort)] == nil {
+				if w.listeners["tcp:"+ns+host+":"+strconv.Itoa(w.nextPort)] == nil {
 					break
 				}
 			}
 			pn = w.nextPort
 		}
 		address = host + ":" + strconv.Itoa(pn)
-		if w.listeners["tcp:"+address] != nil || w.portBusy(pn) {
+		if w.listeners["tcp:"+ns+address] != nil || (ns == "" && w.portBusy(pn)) {
 			w.mu.Unlock()
 			return nil, opErr("listen", network, mkAddr(network, address), os.NewSyscallError("bind", EADDRINUSE))
 		}
 		w.mu.Unlock()
+		global = ns + address
 	default:
 		return nil, opErr("listen", network, nil, net.UnknownNetworkError(network))
 	}
@@ -332,6 +346,37 @@ func (w *World) Dial(network, address string) (*Endpoint, error) {
 	}
 	w.mu.Lock()
 	l := w.listeners[network+":"+address]
+	if network == "tcp" {
+		// network namespaces: a published port of another namespace first, then
+		// the caller's own namespace
+		ns := ""
+		if cur != nil {
+			ns = cur.NetNS
+		}
+		l = nil
+		if host, port, err := net.SplitHostPort(address); err == nil {
+			pn, _ := strconv.Atoi(port)
+			for _, pm := range w.PortMaps {
+				if pm.From == ns {
+					to := ""
+					if pm.To != "" {
+						to = "@" + pm.To + "/"
+					}
+					if cand := w.listeners["tcp:"+to+host+":"+strconv.Itoa(pn-pm.Shift)]; cand != nil {
+						l = cand
+						break
+					}
+				}
+			}
+		}
+		if l == nil {
+			own := ""
+			if ns != "" {
+				own = "@" + ns + "/"
+			}
+			l = w.listeners["tcp:"+own+address]
+		}
+	}
 	var nodeMissing bool
 	if network == "unix" {
 		nodeMissing = w.fs[address] == nil
@@ -512,4 +557,13 @@ func (e *Endpoint) Closed() bool {
 	e.mu.Lock()
 	defer e.mu.Unlock()
 	return e.closed
+}
+
+// IsClosed reports whether the listener has been closed.
+//
+//go:norace
+func (l *Listener) IsClosed() bool {
+	l.mu.Lock()
+	defer l.mu.Unlock()
+	return l.closed
 }
